@@ -21,6 +21,11 @@ CLAIMED = {
          "Function bodies = every node kind alone, every parent x child kind in every slot, depth-3 spines, plus binder-collision kinds (inner parameter / do-local / shorthand named like a captured name, postfix on captured values) over typed leaves; each under 12 capture configurations (negative, NaN, infinities, -0, strings with both quote kinds / backslash / newline, nested data, records with quoted keys, closures with their own captures, built-ins) and every argument pair of a 6/11-value pool: the original closure, its from_json(to_json(.)) reload in a fresh heap and the re-emitted reload must agree (equal value or both fail); the emitted text must itself be a lambda; a spread of functions also through the real `blots p1 | blots p2` pipeline.",
          "Function-valued results are compared by signature only (their behaviour is compared when they are called); self-recursive and late-bound functions are outside the statement; one recorded known finding (emitted text of root-pipe bodies is not itself a lambda, pinned by existing tests).",
          "DESIGN.md §4 C05"),
+ "C06": ("exploration",
+         "bounded-exhaustive enumeration of JSON-representable values and documents; round trip in process and through two real processes; independent JSON oracle",
+         "Every leaf of the value alphabets (grid spread of finite doubles, every string of length <= 2/3 over a 24-code-point alphabet, special strings), each leaf in a list and under every key of a 39-key pool, every ordered key pair, leaf pairs, depth-3/4 nestings and depth-6 spines is pushed through from_value -> to_json -> text -> from_json -> to_value and compared by .== and structurally (bits, code points); 405/3100 documents (number spellings, escapes, nesting, duplicate keys) go through the real CLI with -i and through a second process reading the first one's stdout.",
+         "Python's json/float is the reference for JSON number values; objects with the reserved key and numbers beyond the double range are excluded as stated.",
+         "DESIGN.md §4 C06"),
  "C07": ("exploration",
          "generator-automaton enumeration of syntax trees x every maximum width up to each program's saturation bound; re-parse and AST comparison",
          "Reference renderings of every tree of the generator families (every node kind; parent x child kind in every slot; thorough: full slot products, all depth-3 spines, depth-4 spines over class representatives - 3.1 M programs), literal families, the corpus and comment/blank-line/leading-minus statement sequences are formatted at every width from 1 to the per-program saturation bound (re-checked) plus the default; every distinct output is re-parsed and compared statement by statement with the input's AST. Paths: real format_blots (wasm source, native shim) and the real `blots --format` binary.",
@@ -66,11 +71,21 @@ CLAIMED = {
          "Every number list of length 1..4/5 over a boundary alphabet (plus periodic extensions to 50) is run through all six aggregates in three calling conventions and percentile at 13 p values; results compared with reference computations and across all permutations.",
          "Rounding bounds n*eps*sum|x| (sum) and 2n*eps (prod); overflow-prone cases are excluded from the magnitude checks; NaN elements belong to C01.",
          "DESIGN.md §4 C15"),
+ "C16": ("exploration",
+         "exhaustive enumeration of a finite double grid and of a literal grammar's short strings; exact-rational reference",
+         "Every finite double of the grid N goes through to_string->to_number, JSON output->input, closure capture->emitted source->reload->call and formatter->parser and must come back bit-identical; every string of length <= 5/7 over {0 1 5 9 . _ e E + -} accepted by the documented literal grammar, every short 0x/0b literal and boundary long literals are evaluated and compared with the nearest double of their exact rational value.",
+         "Trusts /verif/lib/oracle.py (fractions; int/int division is correctly rounded) and the harness's regex of the documented literal grammar; doubles outside the grid are not explored.",
+         "DESIGN.md §4 C16"),
  "C17": ("exploration",
          "exhaustive enumeration of the whole unit table (identifiers, ordered pairs, same-category triples)",
          "The unit table is finite: every identifier (and case variants), every alias, every ordered pair, every same-category triple and every prefixed/base name pair is enumerated; resolution is recomputed independently from the identifier lists, ratios from an independent prefix table, and the algebraic laws checked at 12/24 magnitudes.",
          "Tolerances 2/8/12 ulp relative (identity / round trip / transitivity), temperature 1e-9 relative; magnitudes outside the listed set are not explored.",
          "DESIGN.md §4 C17"),
+ "C20": ("exploration",
+         "exhaustive enumeration of a finite double grid; exact-rational reference for the displayed numeral",
+         "Every double of the grid N (23 k quick / 455 k thorough) plus NaN, infinities and zeros is rendered by format_display_number and by the format built-in; an exact-rational oracle checks the numeral grammar, |text - x| < 10^(floor(log10|x|) - 14) and exactness of integers below 2^53.",
+         "Trusts /verif/lib/oracle.py; doubles outside the grid are not explored.",
+         "DESIGN.md §4 C20"),
 }
 
 def main():
